@@ -105,6 +105,27 @@ INFO = {
     "C18-c": (["C18"], "missed at first", "chains were only tested flat and read-only; C18 now compares nested ChainedVisitor structures with an editing member against the documented chain semantics composed the same way"),
     "C19-c": (["C19"], "caught as written", None),
     "C20-c": (["C20"], "missed at first", "every interface had an implementer; C20 now sometimes strips all implementations of one interface from the base schema"),
+    # ---- round 4
+    "C01-d": (["C01"], "caught as written", None),
+    "C02-d": (["C02"], "caught as written", None),
+    "C03-d": (["C03"], "caught as written", None),
+    "C04-d": (["C04"], "missed at first", "custom scalars were transparent; code-built ones may now serialise one value to null (reference executor mirrors it) and appear more often in output positions"),
+    "C05-d": (["C05"], "caught as written", None),
+    "C06-d": (["C06"], "missed at first", "renaming transforms used fixed prefixes; they now draw names from the document's other namespaces, plus a deliberate `name-collisions` transform"),
+    "C07-d": (["C07"], "caught as written", None),
+    "C08-d": (["C08"], "caught as written", None),
+    "C09-d": (["C09"], "caught as written", None),
+    "C10-d": (["C10"], "caught as written", None),
+    "C11-d": (["C11"], "caught as written", None),
+    "C12-d": (["C12"], "caught as written", None),
+    "C13-d": (["C13"], "missed at first", "bad names were ASCII only; non-ASCII letters/digits, tab, dot and trailing line feed added (the latter exposed genuine defect fb34676)"),
+    "C14-d": (["C14"], "missed at first", "C14's directive only had an Int argument and input fields never had snake_case names; both added"),
+    "C15-d": (["C15"], "missed at first", "types were at most two lists deep; three list levels added; the harness' type_ref no longer raises on a missing ofType"),
+    "C16-d": (["C16"], "caught as written", None),
+    "C17-d": (["C17"], "caught as written", None),
+    "C18-d": (["C18"], "missed at first", "the stock DispatchingVisitor never visited before a subclass did; it now does"),
+    "C19-d": (["C19"], "caught as written", None),
+    "C20-d": (["C20"], "missed at first", "C20 built every schema with enum internal value = name; code-built schemas now carry internal values and members can be renamed keeping theirs (exposed genuine defect 781298d)"),
 }
 RAN_C = ("tools/confirm_seed.sh (scratch worktree of /repo HEAD, /repo itself untouched because a background thorough run was using it): "
          "demo.py on the clean tree (exit 0), patch applied, repo test-suite (1895 passed), demo.py with the change (exit 1), "
@@ -112,7 +133,7 @@ RAN_C = ("tools/confirm_seed.sh (scratch worktree of /repo HEAD, /repo itself un
 for sid, (caught, first, strengthening) in sorted(INFO.items()):
     p = os.path.join(HERE, "seeded", sid, "meta.json")
     m = json.load(open(p))
-    m["what_i_ran"] = RAN_C if sid.endswith("-c") else RAN
+    m["what_i_ran"] = RAN_C if sid.endswith(("-c", "-d")) else RAN
     m["caught_by_quick_checks"] = caught
     m["first_round"] = first
     if strengthening:
